@@ -63,7 +63,7 @@ VARIANTS = {
     # plain gcc build run under valgrind memcheck (uninitialised-value use, which ASan/UBSan do not see; MSan is unusable here)
     "memcheck": ("g++-12", ["-O1", "-g"], []),
 }
-MEMCHECK_CMD = ["valgrind", "--tool=memcheck", "-q", "--error-exitcode=97", "--exit-on-first-error=yes",
+MEMCHECK_CMD = ["valgrind", "--tool=memcheck", "-q", "--vgdb=no", "--error-exitcode=97", "--exit-on-first-error=yes",
                 "--num-callers=24", "--leak-check=no", "--undef-value-errors=yes"]
 
 SAN_ENV = {
